@@ -29,6 +29,7 @@ type server struct {
 	out    *bufio.Reader
 	home   string
 	stderr *os.File
+	served int
 }
 
 var (
@@ -46,7 +47,7 @@ func startServer() (*server, error) {
 	cmd.Env = []string{
 		"HOME=" + home, "XDG_CONFIG_HOME=" + filepath.Join(home, ".config"), "XDG_DATA_HOME=" + filepath.Join(home, ".local", "share"),
 		"XDG_CACHE_HOME=" + filepath.Join(home, ".cache"), "OCTOSQL_NO_TELEMETRY=1", "TZ=UTC", "PATH=/usr/bin:/bin", "TMPDIR=" + os.TempDir(),
-		"GOMEMLIMIT=2GiB", "GOTRACEBACK=all", "OCTOSQL_VERIF_SERVE=1",
+		"GOMEMLIMIT=2GiB", "GOTRACEBACK=all", "OCTOSQL_VERIF_SERVE=1", "GOMAXPROCS=2",
 	}
 	in, err := cmd.StdinPipe()
 	if err != nil {
@@ -87,6 +88,13 @@ func Fast(inv Inv) (r Res, died bool) {
 	}
 	srvMu.Lock()
 	defer srvMu.Unlock()
+	// every query run in the server allocates a new function map (three regexp caches with their goroutines) that is
+	// never released - harmless in a one-shot process, a leak here: recycle the server regularly
+	if srv != nil && srv.served >= 250 {
+		srv.in.Close()
+		srv.kill()
+		srv = nil
+	}
 	if srv == nil {
 		s, err := startServer()
 		if err != nil {
@@ -127,6 +135,7 @@ func Fast(inv Inv) (r Res, died bool) {
 		ch <- lineRes{line, err}
 	}()
 	atomic.AddInt64(&ServerRuns, 1)
+	s.served++
 	select {
 	case lr := <-ch:
 		if lr.err != nil {
